@@ -13,6 +13,24 @@ using namespace coloquinte;
 #ifndef QMAX
 #define QMAX 2
 #endif
+#ifdef ASSIGNONLY
+// H13Q: toAssignment on an ARBITRARY allocation matrix (macro-sized shares up to 2^40: cell areas are 64-bit quantities)
+extern "C" void harness() {
+  int ns = 1 + __verif_choice(2), nk = 1 + __verif_choice(3);
+  std::vector<DemandType> cap(nk, 1), dem(ns, 1);
+  std::vector<std::vector<CostType> > costs(nk, std::vector<CostType>(ns, 0));
+  TransportationProblem pb(cap, dem, costs);
+  for (int j = 0; j < nk; ++j) for (int i = 0; i < ns; ++i) { long long a = __verif_nondet_i64(0, 1LL << 40); pb.allocations_[j][i] = a; }
+  __verif_cover("precondition holds");
+  std::vector<int> as = pb.toAssignment();
+  VASSERT((int)as.size() == ns, "assignment has one entry per source");
+  for (int i = 0; i < ns; ++i) {
+    VASSERT(as[i] >= 0 && as[i] < nk, "assigned sink in range");
+    for (int j = 0; j < nk; ++j) VASSERT(pb.allocations_[as[i]][i] >= pb.allocations_[j][i], "assigned sink receives most of the source");
+  }
+  __verif_cover("end");
+}
+#else
 extern "C" void harness() {
 #ifdef SHAPES33
   // 3 sources x 3 sinks with the quantities of a few tight shapes (two sinks fill up while the third has room), costs symbolic
@@ -116,3 +134,4 @@ extern "C" void harness() {
   }
   __verif_cover("end");
 }
+#endif
